@@ -412,6 +412,8 @@ def step(st, ev, seed):
             pair.read("C", None, 1)
             if st.meta is not None:
                 st.meta["invalidated"] = True
+                if getattr(st, "last_resumed_how", None) == "ticket":
+                    st.meta["fatal_on_ticket_conn"] = True
                 # the client's own object is marked only if that object
                 # (not a copy of it) was used on the failed connection
                 if not getattr(st, "last_used_copy", False):
@@ -423,6 +425,8 @@ def step(st, ev, seed):
             r2 = pair.read("C", None, 1)
             if st.meta is not None:
                 st.meta["invalidated"] = True
+                if getattr(st, "last_resumed_how", None) == "ticket":
+                    st.meta["fatal_on_ticket_conn"] = True
                 # the client's own object is marked only if that object
                 # (not a copy of it) was used on the failed connection
                 if not getattr(st, "last_used_copy", False):
@@ -475,8 +479,18 @@ def step(st, ev, seed):
                          "offer and the server's list give %r" % (got, wa))
     if resumed:
         if not el:
-            fails.append("resumed although the session is not eligible (%s)"
-                         % why)
+            tag = ""
+            m0 = st.meta or {}
+            if m0.get("fatal_on_ticket_conn") and mech["cache"] and \
+                    st.now - m0["issued"] <= MAXAGE and \
+                    not m0["evicted"] and m0["server"] == rec["srv"] and \
+                    rec["offer"] in ("held", "held-copy",
+                                     "held-refreshed-clock"):
+                # the only thing against this resumption is a fatal error on
+                # a connection that had been resumed *by ticket*
+                tag = "[id-after-fatal-on-ticket-conn] "
+            fails.append(tag + "resumed although the session is not "
+                         "eligible (%s)" % why)
         if rec["inconsistent"]:
             fails.append("resumed although the offer is inconsistent with "
                          "the session (%s)" % rec["offer"])
@@ -539,6 +553,7 @@ def step(st, ev, seed):
     else:
         st.last = None
     st.last_rec = {"resumed": bool(resumed), "both": both, "el": el}
+    st.last_resumed_how = why if (resumed and el) else None
     return fails
 
 
@@ -641,6 +656,9 @@ def run(res, tier, seed):
             key = {"mech": st["mech"], "what": f["fail"][:60]}
             if f["fail"].startswith("[tls12-ticket-declined]"):
                 key = {"tls12_ticket_declined_breaks_client": True}
+            if f["fail"].startswith("[id-after-fatal-on-ticket-conn]"):
+                key = {"mech": st["mech"],
+                       "id_resumed_after_fatal_on_ticket_connection": True}
             res.violation(key, f, {"mech": st["mech"], "history": hist})
         if st["resumptions"] and len(res.coverage["samples"]) < 5:
             res.sample({"mechanism": st["mech"], "second_event": st["first"],
